@@ -220,7 +220,7 @@ def c11():
     return os_roundtrip_obs("C11") + td_obs("C11") + [ar_ob("C11.abandon_os.len%d_t%d" % (ln, tg), "h_abandon_os", defines=["LISTLEN=%d" % ln, "TARGET=%d" % tg], replace=LOCK_REPL, cost=20,
                                             funcs=["mi_arena_segment_os_clear_abandoned", "mi_arena_segment_os_mark_abandoned"],
                                             bounds="abandoned OS segments stay reclaimable (so they can be freed): list of %d, entry %d" % (ln, tg)) for ln, tg in ((1, 0), (2, 1), (3, 1))] + [
-        arena_free_ob("C11"),
+        arena_free_ob("C11")] + [o for o in page_free_full_obs("C11") if o["id"].endswith(".last")] + [o for o in seg_reclaim_full_obs("C11") if o["id"].endswith("a0b0")] + [
         os_ob("C11.good_alloc_size", "h_good_alloc_size", funcs=["_mi_os_good_alloc_size"], bounds="all sizes <= PTRDIFF_MAX", cost=10)]
 
 
@@ -368,6 +368,38 @@ def reclaim_obs(prefix):
                          ("attempt_reclaim", ["_mi_segment_attempt_reclaim"]))]
 
 
+def span_obs(prefix, which=("span_alloc", "span_free")):
+    tab = {"span_alloc": ["mi_segments_page_find_and_allocate", "mi_segment_span_allocate", "mi_segment_slice_split", "mi_segment_span_free", "mi_segment_span_free_coalesce", "mi_segment_ensure_committed", "mi_segment_commit", "mi_span_queue_push", "mi_span_queue_delete", "mi_span_queue_for", "mi_slice_bin"],
+           "span_free": ["mi_segment_page_clear", "mi_segment_span_free_coalesce", "mi_segment_span_free", "mi_segment_span_remove_from_queue", "mi_slice_first"]}
+    var = {"span_alloc": [("want%d" % n, "WANT=%d" % n) for n in (1, 2, 3, 4)], "span_free": [("left", "FREEA=1"), ("right", "FREEA=0")]}
+    return [sg_ob("%s.%s.%s" % (prefix, w, nm), "h_" + w, defines=[d], unwind=40, unwindset=["stub_memzero_bytes.0:130"], std_checks=False, cost=60, cbmc_flags=["--max-field-sensitivity-array-size", "520"],
+                  replace=dict({"_mi_ptr_segment": "stub_ptr_segment2"}, **({"_mi_memzero": "stub_memzero_bytes"} if w == "span_free" else {})), funcs=tab[w],
+                  bounds="segment of 8 slices: info | used page (2) | free span (4) | used page (1); request of 1..4 slices; commit state, OS answers, page fields symbolic") for w in which for (nm, d) in var[w]]
+
+
+SEG_UNWINDSET = ["mask_from.0:10", "_mi_commit_mask_next_run.0:66", "_mi_commit_mask_next_run.1:10", "_mi_commit_mask_next_run.2:66", "_mi_commit_mask_next_run.3:20",
+                 "_mi_commit_mask_committed_size.0:66", "_mi_commit_mask_committed_size.1:10", "mi_commit_mask_create.0:10", "mi_segment_try_purge.0:12", "stub_memzero_bytes.0:130"]
+
+
+def page_free_full_obs(prefix):
+    return [sg_ob("%s.page_free_full.%s%s" % (prefix, "left" if fa else "right", (".last", ".owned", ".abandoned")[only]), "h_page_free_full", defines=["FREEA=%d" % fa, "ONLY=%d" % (only == 0), "ABND=%d" % (only == 2)],
+                  unwind=40, unwindset=SEG_UNWINDSET, std_checks=False, cost=90, cbmc_flags=["--max-field-sensitivity-array-size", "520"],
+                  replace={"_mi_ptr_segment": "stub_ptr_segment2", "_mi_memzero": "stub_memzero_bytes"},
+                  funcs=["_mi_segment_page_free", "mi_segment_page_clear", "mi_segment_span_free_coalesce", "mi_segment_span_free", "mi_segment_schedule_purge", "mi_segment_try_purge", "mi_segment_purge",
+                         "mi_segment_abandon", "mi_segment_free", "mi_segment_os_free", "mi_segment_span_remove_from_queue", "mi_segments_track_size"],
+                  bounds="segment of 8 slices: info | page (2) | free span (4) | page (1); victim concrete; the other page owned, abandoned or already free; purge delay -1..100, clock, OS answers symbolic")
+            for fa in (1, 0) for only in (0, 1, 2)]
+
+
+def seg_reclaim_full_obs(prefix):
+    return [sg_ob("%s.seg_reclaim_full.a%db%d" % (prefix, a, b), "h_seg_reclaim_full", defines=["AUSED=%d" % a, "BUSED=%d" % b],
+                  unwind=40, unwindset=SEG_UNWINDSET, std_checks=False, cost=90, cbmc_flags=["--max-field-sensitivity-array-size", "520"],
+                  replace={"_mi_ptr_segment": "stub_ptr_segment2", "_mi_memzero": "stub_memzero_bytes"},
+                  funcs=["mi_segment_reclaim", "mi_segment_page_clear", "mi_segment_span_free_coalesce", "mi_segment_span_free", "mi_segment_free", "mi_segment_os_free", "mi_segments_track_size", "mi_slices_start_iterate"],
+                  bounds="abandoned segment of 8 slices: info | page A (2) | free span (4) | page B (1); each page with live blocks or all free; purging disabled")
+            for a in (0, 1) for b in (0, 1)]
+
+
 def segment_reclaim_ob(prefix):
     return sg_ob(prefix + ".segment_reclaim", "h_segment_reclaim", unwind=8, unwindset=[], std_checks=False, cost=20, cbmc_flags=["--max-field-sensitivity-array-size", "520"],
                  replace={"mi_segment_page_clear": "stub_page_clear", "mi_segment_span_free_coalesce": "stub_span_free_coalesce", "mi_segment_free": "stub_segment_free"},
@@ -463,6 +495,7 @@ def c01():
     obs += page_obs("C01", [E_MALLOC, E_FREE, E_COLLECT, E_EXTEND], sizes=((1024, 3),), flavours=("release", "secure"), tier="extended")
     obs += page_obs("C01", [E_FREE, E_COLLECT, E_EXTEND], sizes=((16, 6), (80, 4)), flavours=("secure",), tier="extended")
     obs += queue_obs("C01")
+    obs += span_obs("C01") + page_free_full_obs("C01")
     for b in (1, 2, 13, 33, 48):
         obs.append(O("C01.page_start.bin%02d" % b, "c16_arith.c", "h_page_start", defines=["BIN=%d" % b], funcs=["_mi_segment_page_start_from_slice"], cost=30,
                      bounds="real bin %d: the page area (start, size) lies exactly inside its span for every slice index" % b))
@@ -487,9 +520,7 @@ def c17():
     obs += page_obs("C17", [E_MALLOC], sizes=((32, 3),), flavours=("secure",))
     obs += page_obs("C17", [E_DF], sizes=((32, 2),), flavours=("secure",), timeout=900, **HARD)
     obs += page_obs("C17", [E_OV], sizes=((32, 2),), flavours=("debug",), timeout=900, **HARD)
-    MT_REPL = {"_mi_ptr_segment": "stub_ptr_segment", "_mi_segment_page_of": "stub_segment_page_of", "_mi_segment_page_start": "stub_segment_page_start",
-               "mi_free_block_delayed_mt": "stub_free_block_delayed_mt"}
-    obs += page_obs("C17", [("h_overflow_detect_mt", ["mi_free", "mi_free_generic_mt", "mi_free_block_mt", "mi_check_padding", "_mi_padding_shrink"])], sizes=((32, 2),), flavours=("debug",), timeout=900, replace=MT_REPL, **HARD)
+    obs += page_obs("C17", [E_OV_MT], sizes=((32, 2),), flavours=("debug",), timeout=900, replace=MT_REPL, **HARD)
     obs += page_obs("C17", [E_DF], sizes=((32, 3),), flavours=("secure", "debug"), tier="thorough", timeout=3000, **HARD)
     obs += page_obs("C17", [E_OV], sizes=((32, 3),), flavours=("debug",), tier="thorough", timeout=3000, **HARD)
     obs += page_obs("C17", [E_FREE], sizes=((32, 3),), flavours=("secure",), tier="thorough", timeout=3600, **HARD)
@@ -742,9 +773,21 @@ def lists_obs(prefix):
     ]
 
 
+MT_REPL = {"_mi_ptr_segment": "stub_ptr_segment", "_mi_segment_page_of": "stub_segment_page_of", "_mi_segment_page_start": "stub_segment_page_start",
+           "mi_free_block_delayed_mt": "stub_free_block_delayed_mt"}
+E_FREE_MT = ("h_free_mt", ["mi_free", "mi_free_generic_mt", "mi_free_block_mt", "mi_check_padding", "mi_stat_free", "_mi_padding_shrink"])
+E_OV_MT = ("h_overflow_detect_mt", ["mi_free", "mi_free_generic_mt", "mi_free_block_mt", "mi_check_padding", "_mi_padding_shrink"])
+
+
+def free_mt_obs(prefix):
+    us = ["stub_free_block_delayed_mt.0:12", "stub_free_block_delayed_mt.1:40", "h_free_mt.0:40"]
+    return (page_obs(prefix, [E_FREE_MT], sizes=((32, 3),), flavours=("release",), timeout=900, replace=MT_REPL, unwindset=us, std_checks=False)
+            + page_obs(prefix, [E_FREE_MT], sizes=((32, 2),), flavours=("debug", "secure"), tier="thorough", timeout=2400, replace=MT_REPL, unwindset=us, std_checks=False)
+            + page_obs(prefix, [E_OV_MT], sizes=((32, 2),), flavours=("debug", "secure"), timeout=900, replace=MT_REPL, std_checks=False))
+
+
 def c02():
-    return lists_obs("C02") + page_obs("C02", [E_COLLECT, E_MALLOC], sizes=((32, 5),), flavours=("release",)) + [
-        ] + force_abandon_obs("C02") + [
+    return lists_obs("C02") + page_obs("C02", [E_COLLECT, E_MALLOC], sizes=((32, 5),), flavours=("release",)) + free_mt_obs("C02") + force_abandon_obs("C02") + [
         ar_ob("C02.abandon_bit", "h_abandon_bit", cost=30, funcs=["_mi_arena_segment_clear_abandoned", "_mi_arena_segment_mark_abandoned", "_mi_bitmap_unclaim", "_mi_bitmap_claim"],
               bounds="reclaim-on-free ownership decision: one arena of 8 blocks, abandoned bitmap word under interference")]
 
@@ -797,13 +840,15 @@ def c09():
     obs.append(heap_by_tag_ob("C09"))
     obs.append(collect_abandon_ob("C09"))
     obs.append(segment_reclaim_ob("C09"))
+    obs += seg_reclaim_full_obs("C09")
+    obs += [o for o in page_free_full_obs("C09") if o["id"].endswith(".abandoned")]
     return obs
 
 
 PROPS["C09"] = dict(
     obligations=c09,
     bounds="abandonment markers: one arena bitmap word under interference; OS abandoned list of 0-3 segments; sub-process filter; remote free into a page (as C02)",
-    outside="whole thread exit (mi_thread_done call order), mi_segment_reclaim / mi_segment_check_free / mi_segment_abandon on the slice map (segment lemmas not built: see DESIGN.md), live block contents across abandonment",
+    outside="whole thread exit (mi_thread_done call order); mi_segment_abandon / mi_segment_reclaim on slice maps other than the concrete 4- and 8-slice layouts; mi_segment_check_free; live block contents across abandonment",
     assumptions=ARENA_STUBS + ["mi_lock_*: ghost boolean (try_acquire may fail); interference on the abandoned bitmap word: arbitrary rewrites"],
     trusted=["arena_layer.c"],
 )
@@ -866,20 +911,21 @@ def c13():
     return [segment_alloc_commit_ob("C13")] + seg_obs("C13", ["commit_mask", "next_run"]) + seg_shape_obs("C13", ["seg_commit", "seg_purge", "try_purge"]) + [
         arena_free_ob("C13"), arena_alloc_ob("C13"),
         os_ob("C13.page_align", "h_page_align", funcs=["mi_os_page_align_areax", "_mi_align_up", "_mi_align_down"], cost=20, bounds="any address and size"),
-        os_ob("C13.os_purge", "h_purge", funcs=["_mi_os_purge_ex", "mi_os_decommit_ex", "_mi_os_reset", "_mi_os_commit_ex"], cost=20, bounds="any range, decommit or reset mode, any delay")] + arena_expiry_ob("C13")[:2]
+        os_ob("C13.os_purge", "h_purge", funcs=["_mi_os_purge_ex", "mi_os_decommit_ex", "_mi_os_reset", "_mi_os_commit_ex"], cost=20, bounds="any range, decommit or reset mode, any delay")] + arena_expiry_ob("C13")[:2] + [
+        o for o in page_free_full_obs("C13") if o["id"].endswith(".owned")] + span_obs("C13", which=("span_alloc",))[1:3]
 
 
 PROPS["C13"] = dict(
     obligations=c13,
     bounds="all option values symbolic (purge delay, decommit vs reset, eager commit) in every lemma; segment masks in a 16-block window; arenas of 8 blocks",
-    outside="the span/slice-map side (a used span is covered by the commit mask; purge_mask and used spans disjoint) is the composition of seg_commit ('what is put to use leaves the purge schedule') with span allocation, which is not machine-checked; pairwise whole-allocator runs per option",
+    outside="the span/slice-map side (a used span is covered by the commit mask; purge_mask and used spans disjoint) is decided on one concrete 8-slice layout only (span_alloc, page_free_full); other layouts are the composition of seg_commit with span allocation; pairwise whole-allocator runs per option",
     assumptions=SEG_STUBS + ARENA_STUBS + OS_STUBS,
     trusted=["segment_layer.c ghost committed set", "arena_layer.c", "os_layer.c"],
 )
 
 
 def c07():
-    return os_roundtrip_obs("C07") + seg_shape_obs("C07", ["seg_commit"]) + [o for o in td_obs("C07") if "td_zalloc.c0" in o["id"]] + [arena_alloc_ob("C07"), arena_free_ob("C07"),
+    return os_roundtrip_obs("C07") + span_obs("C07", which=("span_alloc",)) + seg_shape_obs("C07", ["seg_commit"]) + [o for o in td_obs("C07") if "td_zalloc.c0" in o["id"]] + [arena_alloc_ob("C07"), arena_free_ob("C07"),
         os_ob("C07.os_purge_commit", "h_purge", funcs=["_mi_os_commit_ex", "_mi_os_purge_ex"], cost=20, bounds="commit/purge with refusing OS")]
 
 
